@@ -40,10 +40,17 @@ def isExplicit (e : String × (DS × String)) : Bool :=
 def aliasMappingOrig (g : LGraph) (grp : List DObj) : AliasMap :=
   aliasEdges g grp ++ unqualifiedMap grp ++ qualifiedMap grp
 
+/-- `{table.raw_name: table for table in table_group if isinstance(table, Table) and table.alias == table.raw_name}`:
+    the tables of the group that carry no alias answer to their own bare name -/
+def defaultAliasMap (grp : List DObj) : AliasMap :=
+  (grp.filter (fun o => o.d.isTable)).filterMap (fun o =>
+    match o.d with
+    | .table _ n => if o.alias == some n then some (n, (o.d, o.printed)) else none
+    | _ => none)
+
 /-- holders.py:187‑205 with the D7 repair: `unqualified_map | qualified_map | default_alias_map | explicit_alias_map`
     (later wins): bare / qualified table names < the name of a table without alias < an alias written in the query -/
 def aliasMappingFixed (g : LGraph) (grp : List DObj) : AliasMap :=
-  unqualifiedMap grp ++ qualifiedMap grp ++ (aliasEdges g grp).filter (fun e => !isExplicit e) ++
-    (aliasEdges g grp).filter isExplicit
+  unqualifiedMap grp ++ qualifiedMap grp ++ defaultAliasMap grp ++ (aliasEdges g grp).filter isExplicit
 
 end SqlLineage.Holder
